@@ -551,7 +551,7 @@ def rule_e(ck, R):
                 below = eng.entails(p, L(r) + 1)
                 zero = eng.entails(p, L(r)) and eng.entails(p, -L(r))
                 idx = rt[-1].args[0]
-                if above and (tc or p.end != 'return'):
+                if above and (tc or p.end == 'loopback'):        # left by return or by break: nothing follows the loop but the end
                     bad = bad or 'a register above the range does not end the walk'
                 elif below and (tc or p.end != 'loopback'):
                     bad = bad or 'a register below the range is not simply skipped (the walk %s)' % ('marks it' if tc else 'ends')
